@@ -43,6 +43,59 @@ where
     out.into_iter().flatten().collect()
 }
 
+/// every chunk again, last line first; `Some((result, culprit line, last index of the chunk))`
+/// where it differs from `fwd`.  The culprit is looked for among the calls made before it in this
+/// pass, each tried in a fresh thread (fresh thread-local state) followed by the line itself.
+fn order_pass(lines: &[String], fwd: &[String]) -> Vec<Option<(String, String, usize)>> {
+    let nthreads = std::thread::available_parallelism().map(|x| x.get()).unwrap_or(4).min(16);
+    let chunk = ((lines.len() + nthreads - 1) / nthreads.max(1)).max(1);
+    let mut out: Vec<Vec<Option<(String, String, usize)>>> = Vec::new();
+    std::thread::scope(|s| {
+        let handles: Vec<_> = lines
+            .chunks(chunk)
+            .zip(fwd.chunks(chunk))
+            .enumerate()
+            .map(|(ci, (ch, fw))| {
+                s.spawn(move || {
+                    let last = ci * chunk + ch.len() - 1;
+                    let mut res: Vec<Option<(String, String, usize)>> = vec![None; ch.len()];
+                    let t0 = std::time::Instant::now();
+                    for k in (0..ch.len()).rev() {
+                        let r = implrun::run_line(&ch[k]);
+                        if r != fw[k] && k + 1 < ch.len() {
+                            let mut culprit = ch[k + 1].clone();
+                            if t0.elapsed().as_secs() < 20 {
+                                for j in k + 1..ch.len() {
+                                    let (p, b) = (ch[j].clone(), ch[k].clone());
+                                    let got = std::thread::spawn(move || {
+                                        implrun::run_line(&p);
+                                        implrun::run_line(&b)
+                                    })
+                                    .join()
+                                    .unwrap_or_default();
+                                    if std::env::var("VERIF_DEBUG_ORDER").is_ok() {
+                                        eprintln!("trial j={} got=`{}` fwd=`{}`", j, got, fw[k]);
+                                    }
+                                    if got != fw[k] {
+                                        culprit = ch[j].clone();
+                                        break;
+                                    }
+                                }
+                            }
+                            res[k] = Some((r, culprit, last));
+                        }
+                    }
+                    res
+                })
+            })
+            .collect();
+        for h in handles {
+            out.push(h.join().unwrap());
+        }
+    });
+    out.into_iter().flatten().collect()
+}
+
 fn read_lines() -> Vec<String> {
     let stdin = std::io::stdin();
     stdin.lock().lines().map(|l| l.unwrap()).filter(|l| !l.trim().is_empty()).collect()
@@ -66,8 +119,16 @@ fn main() {
         }
         "impl" => {
             let lines = read_lines();
-            for r in par_map(&lines, |l| implrun::run_line(l)) {
-                writeln!(w, "{}", r).unwrap();
+            let fwd = par_map(&lines, |l| implrun::run_line(l));
+            // second pass, every chunk backwards on its thread: a result that depends on the calls
+            // made before it on the same thread (state kept between calls) differs from the first
+            // pass; such a line is printed with both results and the call that preceded it
+            let marks = if std::env::var("VERIF_ORDER_PASS").map(|v| v == "0").unwrap_or(false) { vec![None; lines.len()] } else { order_pass(&lines, &fwd) };
+            for (r, m) in fwd.iter().zip(marks.iter()) {
+                match m {
+                    None => writeln!(w, "{}", r).unwrap(),
+                    Some((rev, prev, last)) => writeln!(w, "{} ##order-dependent## {} ##after## {} ##chunkend## {}", r, rev, prev, last).unwrap(),
+                }
             }
         }
         "oracle" => {
